@@ -60,12 +60,19 @@ Theorem C15_init_locks_current_price :
 Proof. exact init_locks. Qed.
 Print Assumptions C15_init_locks_current_price.
 
-(* a well-formed registration by a spelling without a record that can pay the price succeeds *)
+(* a well-formed registration under the canonical spelling, without a record, that can pay the price
+   succeeds (since the repair 8a326f28 the upper-case spelling of an address no longer registers) *)
 Theorem C15_init_succeeds_when_affordable :
-  forall s c ip space kb, get_prov s c = None -> 0 <= st_price s <= bal (st_bank s) (acct c) ->
+  forall s c ip space kb, snd c = false -> get_prov s c = None -> 0 <= st_price s <= bal (st_bank s) (acct c) ->
     snd (init_provider s c true true ip space kb) = Ok.
 Proof. exact init_succeeds. Qed.
 Print Assumptions C15_init_succeeds_when_affordable.
+
+(* an accepted registration was signed with the canonical spelling: one account, one provider record *)
+Theorem C15_registration_only_under_canonical_spelling :
+  forall s c vb ipok ip space kb s', init_provider s c vb ipok ip space kb = (s', Ok) -> snd c = false.
+Proof. exact init_ok_canonical. Qed.
+Print Assumptions C15_registration_only_under_canonical_spelling.
 
 (* ---- shutting down returns the recorded amount and removes provider and record ---- *)
 Theorem C15_shutdown_returns_recorded_amount_and_removes :
@@ -139,7 +146,7 @@ Definition ex_ops : list op :=
   [ OInit (1%N, false) true true 5%N 100 6%N;       (* account 1, lower case: locks 10^10 *)
     OInit (2%N, false) true true 5%N 100 6%N;       (* one coin short: fails *)
     OSetPrice 7000000;
-    OInit (1%N, true) true true 5%N 100 6%N;        (* the same account in upper case: a second record, 7*10^6 *)
+    OInit (1%N, true) true true 5%N 100 6%N;        (* the same account in upper case: refused since the repair 8a326f28 *)
     OSetPrice 1;                                    (* refused *)
     OShutdown (1%N, false) true;                    (* gets 10^10 back although the price is now 7*10^6 *)
     OShutdown (1%N, false) true;                    (* second claim: fails *)
@@ -153,19 +160,20 @@ Proof.
   repeat constructor; unfold signed_ok; cbn; discriminate.
 Qed.
 
-(* a non-trivial reachable state: two records for account 1's two spellings ... *)
+(* a non-trivial reachable state: account 1 registered, was refused a second record under its
+   upper-case spelling, and got its 10^10 back after the price fell; account 3 registered at 7*10^6 *)
 Example C15_ex_run :
   let s := run ex_genesis ex_ops in
-  st_coll s = [((1%N, true), 7000000); ((3%N, false), 7000000)] /\
-  bal (st_bank s) escrow = 14000000 /\ bal (st_bank s) 1%N = 24993000000 /\
+  st_coll s = [((3%N, false), 7000000)] /\
+  bal (st_bank s) escrow = 7000000 /\ bal (st_bank s) 1%N = 25000000000 /\
   bal (st_bank s) 3%N = 9993000000 /\ st_price s = 7000000 /\
   map (fun n => snd (step (run ex_genesis (firstn n ex_ops)) (nth n ex_ops (OSetPrice 0)))) (seq 0 10)
-    = [Ok; Fail; Ok; Ok; Fail; Ok; Fail; Fail; Fail; Ok].
+    = [Ok; Fail; Ok; Fail; Fail; Ok; Fail; Fail; Fail; Ok].
 Proof. vm_compute. repeat split; reflexivity. Qed.
 
-(* ... and the hypotheses of the claimability theorem are met by the upper-case record *)
+(* ... and the hypotheses of the claimability theorem are met by account 3's record *)
 Example C15_ex_claimable :
   let s1 := run ex_genesis ex_ops in
-  get_prov s1 (1%N, true) <> None /\ get_coll s1 (1%N, true) = Some 7000000 /\
-  is_blocked s1 1%N = false /\ get_prov s1 (1%N, false) = None.
+  get_prov s1 (3%N, false) <> None /\ get_coll s1 (3%N, false) = Some 7000000 /\
+  is_blocked s1 3%N = false /\ get_prov s1 (1%N, true) = None.
 Proof. vm_compute. repeat split; try reflexivity. discriminate. Qed.
